@@ -472,6 +472,7 @@ static int hx_nspawns;
 static int hx_nextpid = 5000;
 static int hx_lastpipe_r = -1;
 static int hx_pipe_fail;	/* number of pipe() calls to fail with EMFILE */
+static int hx_spawn_fail;	/* number of posix_spawn() calls to fail with EAGAIN */
 static int hx_sticky_nd;	/* argv[2] of the latest spawn was -nd (the static args[] never forgets) */
 
 static void hx_collect_vtodo(struct hx_spawn_s *s);
@@ -503,6 +504,11 @@ posix_spawn(pid_t *pid, const char *path, const posix_spawn_file_actions_t *fa,
 	    const posix_spawnattr_t *at, char *const argv[], char *const envp[])
 {
 	(void)path, (void)fa, (void)at, (void)envp;
+	if (hx_spawn_fail > 0) {
+		/* injected fault: no more processes for a moment; like the real one, the failure is the RETURN value */
+		hx_spawn_fail--;
+		return EAGAIN;
+	}
 	if (hx_nspawns < HX_MAXSPAWN) {
 		struct hx_spawn_s *s = &hx_spawns[hx_nspawns++];
 		memset(s, 0, sizeof(*s));
@@ -634,11 +640,24 @@ hx_iterate(void)
 	return hx_nspawns - before;
 }
 
+/* what an uninitialised local of a later call will read: a fixed pattern instead of whatever was there */
+static void __attribute__((noinline))
+hx_poison_stack(void)
+{
+	volatile unsigned char pad[16384];
+	for (size_t i = 0; i < sizeof(pad); i++) {
+		pad[i] = 0x5a;
+	}
+}
+
 static int
 hx_tick(double to)
 {
 	if (to > hx_now) {
 		hx_now = to;
+	}
+	if (hx_pipe_fail || hx_spawn_fail) {
+		hx_poison_stack();
 	}
 	return hx_iterate();
 }
